@@ -64,7 +64,7 @@ def run(ctx):
     rnd = ctx.rng('inputs')
     lb = core.build_lbzip2('hook')
     items = []
-    per_kind = 40 if q else 800
+    per_kind = 40 if q else 350
     for kind in defects.DEFECTS:
         for i in range(per_kind):
             try:
@@ -78,7 +78,7 @@ def run(ctx):
             ctx.count('generated:' + kind)
     # mutants of valid streams
     bases = []
-    for i in range(12 if q else 150):
+    for i in range(12 if q else 100):
         d, plain, o = dcorpus.synth_valid(rnd)
         bases.append((d, 'synth'))
     for i in range(8 if q else 80):
@@ -89,7 +89,7 @@ def run(ctx):
             d = f.read()
         if len(d) < 200000:
             bases.append((d, 'repo:' + p.split('/')[-1]))
-    nmut = 60 if q else 900
+    nmut = 60 if q else 400
     for d, name in bases:
         v, info, _ = ora.refbz(d, want_out=False)
         for m, what in defects.field_mutants(rnd, d, info, nmut // 2):
